@@ -151,7 +151,38 @@ def _registry_names():
     return {"cases": cases, "failures": failures[:5], "samples": samples}
 
 
+def _os_crypt_cache_immutable():
+    """registry.get_supported_os_crypt_schemes() is memoized and shared by hosts.py and apache.py: the cached value must
+    be immutable (a tuple), otherwise one consumer's ``out += (...)`` edits the other's scheme list"""
+    os_schemes = extract.module_constant("passlib/utils/__init__.py", "unix_crypt_schemes")
+    failures, cases, samples = [], 0, []
+    for r in range(len(os_schemes) + 1):
+        for sub in itertools.combinations(os_schemes, r):
+            class _H:
+                def __init__(self, ok):
+                    self.ok = ok
+
+                def has_backend(self, name):
+                    return self.ok
+
+            ns = {"os_crypt_present": True, "os_crypt_schemes": os_schemes, "get_crypt_handler": lambda name, _s=sub: _H(name in _s), "OS_CRYPT": "os_crypt",
+                  "warn": lambda *a, **k: None, "exc": type("exc", (), {"PasslibRuntimeWarning": Warning})}
+            fn, info = load_function(f"{R}::get_supported_os_crypt_schemes", ns)
+            res = fn()
+            cases += 1
+            if len(samples) < 2:
+                samples.append({"supported": list(sub), "result": repr(res)})
+            if type(res) is not tuple:
+                failures.append({"key": "os-crypt-cache-mutable", "what": f"cached value is a {type(res).__name__}, a consumer can edit it in place", "witness": {"supported": list(sub)}})
+            elif res != tuple(sub):
+                failures.append({"key": "os-crypt-cache-content", "what": "result is not the supported sub-tuple in order", "witness": {"supported": list(sub), "result": list(res)}})
+    # the consumer in hosts.py extends it with +=: with a tuple this creates a new object
+    hosts_src = extract.module_ast("passlib/hosts.py")[1]
+    return {"cases": cases, "failures": failures[:3], "samples": samples, "functions": [dict(info.describe(), contract="get_supported_os_crypt_schemes (all 2^7 hosts): immutable result")]}
+
+
 FINITE = [
+    Finite("os-crypt-scheme-cache-immutable", _os_crypt_cache_immutable, "registry.get_supported_os_crypt_schemes returns the supported sub-TUPLE (shared memoized value cannot be edited by hosts.py / apache.py)"),
     Finite("htpasswd-context-all-hosts", _htpasswd_all_hosts, "apache._init_htpasswd_context executed for all 2^7 crypt() support sets: catch-all last, default listed, no duplicates"),
     Finite("shipped-scheme-lists", _literal_scheme_lists, "every literal scheme list in apps.py / hosts.py / ext.django keeps catch-all schemes last"),
     Finite("registry-locations", _registry_names, "every name in registry._locations is defined by the module it points to"),
@@ -160,6 +191,7 @@ CONTRACTS = []
 BOUNDED = [Bounded("c17", "harness/c17.py", descr="every exported context x every scheme x generated hashes", timeout=900)]
 
 MUTANTS = [
+    ("registry: os_crypt scheme cache becomes a list", R, "    cache = tuple(\n        name\n        for name in os_crypt_schemes\n        if get_crypt_handler(name).has_backend(OS_CRYPT)\n    )", "    cache = [\n        name\n        for name in os_crypt_schemes\n        if get_crypt_handler(name).has_backend(OS_CRYPT)\n    ]", "refute"),
     ("htpasswd context: plaintext sorted by preference again", A, "    schemes = sorted(\n        set(schemes), key=lambda name: (name == \"plaintext\", preferred.index(name))\n    )\n", "    schemes = sorted(set(schemes), key=preferred.index)\n", "refute"),
     ("htpasswd context: default not among schemes", A, "        default=htpasswd_defaults[\"portable_apache_22\"],", "        default=\"sha1_crypt\",", "refute"),
     ("apps: plaintext first in a list", "passlib/apps.py", "    schemes=[\"bcrypt\", \"phpass\", \"bsdi_crypt\"],", "    schemes=[\"plaintext\", \"bcrypt\", \"phpass\", \"bsdi_crypt\"],", "refute"),
